@@ -21,6 +21,13 @@ type LifecycleResult struct {
 	Subjects []string       `json:"subjects"` // "<family> <type> <id>" of the objects the lifecycle is about
 	Pairs    map[string]int `json:"pairs"`    // expected number of start/stop pairs of an object, when it is not 1
 	Steps    []string       `json:"steps"`
+	// family "the establishment fails part-way" (failed.go): Ordered = the hook ids whose start line was in the marker
+	// file before anything was done that ends them; Attempts = how every attempt that had to fail did fail
+	Ordered  []string `json:"ordered,omitempty"`
+	Attempts []string `json:"attempts,omitempty"`
+	// LogStarted: how often the Core logged that it started a runOnConnect ("conn") / runOnRead ("read") command
+	// during the lifecycle (the log line is written by internal/hooks before the command is spawned)
+	LogStarted map[string]int `json:"log_started,omitempty"`
 	// CoreTerminated: the Core terminated by itself during the lifecycle (a configuration reload whose new server
 	// could not listen); the pairing is judged all the same, and the lifecycle is run again
 	CoreTerminated string `json:"core_terminated,omitempty"`
@@ -75,6 +82,7 @@ type run struct {
 	feeder  *e2elib.Feeder
 
 	logPath  string
+	logFrom  int64 // size of the worker's log when the lifecycle began
 	coreDone chan struct{}
 }
 
@@ -116,6 +124,9 @@ func (r *run) execute() {
 		r.fail("mkdir: %v", err)
 	}
 	r.file = filepath.Join(r.dir, "hooks.log")
+	if fi, err := os.Stat(r.logPath); err == nil {
+		r.logFrom = fi.Size()
+	}
 	if err := os.WriteFile(r.file, nil, 0o644); err != nil {
 		r.fail("marker file: %v", err)
 	}
@@ -136,6 +147,7 @@ func (r *run) execute() {
 			"runOnRead":   marker("read", "$MTX_READER_TYPE", "$MTX_READER_ID", "start", r.file),
 			"runOnUnread": marker("read", "$MTX_READER_TYPE", "$MTX_READER_ID", "stop", r.file),
 		}}
+		r.customize(cfg)
 		fn, err := e2elib.WriteConf(r.dir, "mediamtx.yml", cfg)
 		if err != nil {
 			r.fail("%v", err)
@@ -167,9 +179,12 @@ func (r *run) execute() {
 				r.step("the Core terminated by itself: %s", r.res.CoreTerminated)
 			}
 		}()
-		if r.l.Role == "read" {
+		switch r.l.Role {
+		case "read":
 			r.readLifecycle()
-		} else {
+		case roleFail:
+			r.failLifecycle()
+		default:
 			r.publishLifecycle()
 		}
 	}()
@@ -187,6 +202,9 @@ func (r *run) execute() {
 		if strings.TrimSpace(ln) != "" {
 			r.res.Lines = append(r.res.Lines, ln)
 		}
+	}
+	if r.l.Role == roleFail {
+		r.res.LogStarted = r.countLogStarts()
 	}
 }
 
